@@ -445,6 +445,14 @@ def run(ctx):
                        'they are coupled, one of the two is penalised and printed as an empty '
                        'row, so the site is missing from the determinant table and the summary'
                        if coupled else 'not coupled'), ccm, couples[0] if couples else fcc)
+    # the two termini of a chain that consists of a single residue
+    d_nc = template_distance('ALA', 'N', 'O')
+    if d_nc is not None:
+        coupled = d_nc <= max_bonds and not protein_excluded and typed_only_ligands and drops and removes
+        ctx.ob('C01.R9', 'terminal-site-not-coupled:N+/C-', not coupled,
+               'the N+ and C- groups of a one-residue chain are %d bonds apart (N-CA-C-O; limit %d): %s'
+               % (d_nc, max_bonds, 'they are coupled and one of them is dropped from the report'
+                  if coupled else 'not coupled'), ccm, couples[0] if couples else fcc)
     ctx.need('C01.R9', 8)
     ctx.assume('the terminus tagger is checked for re-arming events and key completeness only, '
                'not as a transducer over all record sequences')
